@@ -296,11 +296,27 @@ func (c *Ctx) summarizeConstructor(g *ssa.Function, depth int) (objSummary, bool
 		return nil, false
 	}
 	rvs := flow.ReturnValues(g, 0)
-	if len(rvs) != 1 {
+	if len(rvs) == 1 {
+		se := c.newSymEval(g, depth)
+		return se.objectState(rvs[0], nil, depth)
+	}
+	// a builder that can also give up — return nil, err — before it has made the object: the state that counts
+	// is the one at the single return that hands the object out
+	var ret *ssa.Return
+	n := 0
+	flow.Instrs(g, func(in ssa.Instruction) {
+		rt, ok := in.(*ssa.Return)
+		if !ok || len(rt.Results) == 0 || rt.Block() == g.Recover || flow.IsNilConst(rt.Results[0]) {
+			return
+		}
+		ret = rt
+		n++
+	})
+	if n != 1 {
 		return nil, false
 	}
 	se := c.newSymEval(g, depth)
-	return se.objectState(rvs[0], nil, depth)
+	return se.objectState(ret.Results[0], ret, depth)
 }
 
 // objectState computes the summary of the object pointed to by `obj` in se.f at instruction
@@ -337,6 +353,12 @@ func (se *symEval) baseSummary(obj ssa.Value, depth int) (objSummary, bool) {
 			sum[k] = sxPhi(alts...)
 		}
 		return sum, true
+	case *ssa.Extract:
+		// (object, err) := builder(…): the object part
+		if call, ok := x.Tuple.(*ssa.Call); ok && x.Index == 0 {
+			return se.baseSummary(call, depth)
+		}
+		return nil, false
 	case *ssa.Call:
 		g := flow.StaticCallee(x)
 		if g == nil || !se.c.P.InModule(pkgOf(g)) || depth <= 0 {
